@@ -252,7 +252,7 @@ class C01(Profile):
         k["vias"] = [0, 1, 2, 4, 4]
 
     def after_op(self, run, op, res):
-        from .ops_data import check_array, check_all_arrays, stored_compression
+        from .ops_data import check_array, check_all_arrays, stored_compression, check_old_views
         if not isinstance(res, dict) or res.get("outcome") != "ok":
             return
         kind = op["op"]
@@ -260,6 +260,7 @@ class C01(Profile):
             m = res.get("target")
             if m is not None and m.kind == "array":
                 check_array(run, m, run.R(m, 4), kind)
+                check_old_views(run, m, kind)
                 if kind == "create_array":
                     c = stored_compression(run, m)
                     run.stats["stored_compression:%s" % c] += 1
@@ -528,7 +529,7 @@ class C15(Profile):
         return o
 
     def after_op(self, run, op, res):
-        from .ops_data import check_array, check_all_arrays, check_raw, check_views
+        from .ops_data import check_array, check_all_arrays, check_raw, check_views, check_old_views
         if not isinstance(res, dict) or res.get("outcome") != "ok":
             return
         kind = op["op"]
@@ -538,6 +539,7 @@ class C15(Profile):
             h = run.R(m, 4)
             check_array(run, m, h, kind)
             check_views(run, m, h, kind)
+            check_old_views(run, m, kind)
             check_raw(run, m, kind)
             if len(m.polynom_coefficients) or m.expansion_origin:
                 run.stats["checks_with_calibration_active"] += 1
